@@ -1177,6 +1177,13 @@ class Executor:
                 return self.call_function(d, args)
             raise Unsupported('no semantics for call %s (receiver %s)' % (raw, rb))
         # inherent method / free function
+        ov = self.env.get('fn_overrides')
+        if ov:
+            k = ('%s::%s' % (c.typebase, c.method)) if c.typebase else c.method
+            if k in ov:
+                # harness-declared stub of a crate function (part of the claim: listed in the evidence)
+                w.used_models['stub:' + k] = 1
+                return ov[k](self, c, args)
         if c.typebase:
             r0 = args[0] if args else None
             while isinstance(r0, Ref):
